@@ -63,6 +63,12 @@ def make_step(rng, exact_ok):
             dx, dy = rand_exact(rng, -20, 20), rand_exact(rng, -20, 20)
         else:
             dx, dy = rng.uniform(-1e3, 1e3), rng.uniform(-1e3, 1e3)
+        if rng.random() < 0.08:
+            # a translation below the library's point tolerance (1e-9) is still a translation
+            if exact_params:
+                dx, dy = Fr(rng.choice([-1, 0, 1]), 10 ** 9), Fr(rng.choice([-1, 1]), 10 ** 9)
+            else:
+                dx, dy = rng.choice([-1, 0, 1]) * 2.0 ** -31, rng.choice([-1, 1]) * 2.0 ** -31
         form = rng.choice(["two", "tuple", "point"])
         if rng.random() < 0.12:
             # the translation vector is one of the shape's own vertex objects (a Point2D is a legitimate
@@ -371,8 +377,12 @@ def case(ctx):
         scale = max(1.0, diam0)
         # rounding grows with the largest intermediate coordinates
         big = max([abs(float(v)) for p in flat_points(final) for v in p] + [1.0])
+        # the inverse vector of a move is a new Point2D built by the caller: the constructor rounds
+        # denominators above 10**9 (only own-vertex vectors have them), the inverse is then not exact
+        inv_exact = exact and all(O.to_fr(parse(st[k])).denominator <= 10 ** 9
+                                  for st in applied if st["op"] == "move" for k in ("dx", "dy"))
         for a, b in zip(pr, po):
-            if exact:
+            if inv_exact:
                 if a != b:
                     case.violate("inverse history with rational parameters does not restore %s exactly (got %s)" % (
                         S.fmt_point(b), S.fmt_point(a)))
